@@ -56,7 +56,7 @@ type OverlapCase struct {
 
 func (h *histProp) Plan(tier string, seed int64) []core.Segment {
 	var segs []core.Segment
-	if h.large && len(h.types) > 1 {
+	if h.large || h.midtext || h.far {
 		// distinct instances used from several goroutines at once must each
 		// behave as they do alone
 		segs = append(segs, core.Segment{Kind: "overlap", N: 3 * tierScale(tier, 5), Chunk: 1})
@@ -114,7 +114,8 @@ func (h *histProp) Plan(tier string, seed int64) []core.Segment {
 					core.Segment{Kind: "farbig:" + t, N: 2 * tierScale(tier, 4), Chunk: 1})
 			}
 			if h.midtext {
-				segs = append(segs, core.Segment{Kind: "midtext:" + t, N: 160 * tierScale(tier, 10), Chunk: 8})
+				segs = append(segs, core.Segment{Kind: "midtext:" + t, N: 160 * tierScale(tier, 10), Chunk: 8},
+					core.Segment{Kind: "midbstar:" + t, N: 2000 * tierScale(tier, 10), Chunk: 50})
 			}
 			segs = append(segs, core.Segment{Kind: "long:" + t, N: 300 * tierScale(tier, 20)})
 			segs = append(segs, core.Segment{Kind: "bigblock:" + t, N: 160 * tierScale(tier, 10), Chunk: 10})
@@ -386,6 +387,29 @@ func (h *histProp) Gen(kind string, idx int64, seed int64, tier string) core.Cas
 				op.D *= 1 + r.Intn(c.BufferSize/100+1)
 			}
 		}
+	case "midbstar":
+		// B*-shaped texts of 1-8 kB (records whose reduced ranks form runs,
+		// ramps and tandem repeats: the inputs that exhaust the budget of the
+		// tandem repeat sort), parsed in blocks of 300-2000 bytes
+		n := 1000 + r.Intn(7000)
+		c := gen.SmallCfg(r, typ, o)
+		c.BufferSize, c.WindowSize, c.ShrinkSize = n+1000, n+1000, r.Intn(n/2)
+		c.BlockSize = 300 + r.Intn(1700)
+		if c.MinMatchLen > 4 {
+			c.MinMatchLen = 2 + r.Intn(3)
+		}
+		stream := bstarText(r, n)
+		if r.Intn(2) == 0 {
+			stream = staircaseText(r)
+			if len(stream) > c.BufferSize {
+				c.BufferSize, c.WindowSize = len(stream)+10, len(stream)+10
+			}
+		}
+		ops := []POp{{K: "write", A: 1, B: 0}}
+		for j := 0; j < 40; j++ {
+			ops = append(ops, POp{K: "parse", A: []int{0, 0, 0, lz.NoTrailingLiterals}[r.Intn(4)]})
+		}
+		pc = PCase{Cfg: c, Family: "bstar", Stream: stream, Ops: ops}
 	case "midtext":
 		// one fill of 2-60 kB over an alphabet of 2-4 letters, window at least
 		// as large as the buffer, parsed in blocks of 1 kB up to everything
@@ -493,7 +517,7 @@ func (h *histProp) Gen(kind string, idx int64, seed int64, tier string) core.Cas
 		nops := 20 + r.Intn(61)
 		pc = GenPCase(r, typ, o, h.weights, nops, 200+r.Intn(1000))
 	}
-	if h.tweak != nil && class != "fixed" && class != "far" && class != "farbig" && class != "midtext" {
+	if h.tweak != nil && class != "fixed" && class != "far" && class != "farbig" && class != "midtext" && class != "midbstar" {
 		h.tweak(r, &pc, kind)
 	}
 	if class != "fixed" {
